@@ -416,9 +416,9 @@ impl Model for SenderModel {
 
 pub fn models(quick: bool) -> Vec<SenderModel> {
     if quick {
-        vec![SenderModel::new("sender-default-q", quick, None, 65535), SenderModel::new("sender-window7-buffer16-q", quick, Some(16), 7)]
+        vec![SenderModel::new("sender-default-q", quick, None, 65535), SenderModel::new("sender-window7-buffer16-q", quick, Some(16), 7), SenderModel::new("sender-buffer5-q", quick, Some(5), 65535)]
     } else {
-        vec![SenderModel::new("sender-default-t", quick, None, 65535), SenderModel::new("sender-window7-buffer16-t", quick, Some(16), 7)]
+        vec![SenderModel::new("sender-default-t", quick, None, 65535), SenderModel::new("sender-window7-buffer16-t", quick, Some(16), 7), SenderModel::new("sender-buffer5-t", quick, Some(5), 65535)]
     }
 }
 
